@@ -58,6 +58,14 @@ Fixpoint anns_eqb (a b : list cl_ann) : bool :=
   | _, _ => false
   end.
 
+Fixpoint drifted_kept (h : string) (before after : list cl_ann) : bool :=
+  match before, after with
+  | b :: before', a :: after' =>
+      (negb (a_drifted b) || opt_str_eqb (a_hash b) (Some h) || negb (opt_str_eqb (a_hash a) (Some h)))
+      && drifted_kept h before' after'
+  | _, _ => true
+  end.
+
 (* the drift steps of one claim: the instance-type cache and the previous condition are threaded; after each
    step the model continues from what the implementation did *)
 Fixpoint check_steps (n : nat) (fresh_scenario : bool) (validated : bool) (cached : bool) (prev : option string)
@@ -86,6 +94,9 @@ Definition check_case (c : case) : list string :=
       ++ tag (anns_eqb ca' ca) "corr:hash-controller-claims"
       (* oracle: afterwards the pool carries the current hash under the current version *)
       ++ tag (opt_str_eqb (fst pa) (Some h) && opt_str_eqb (snd pa) (Some hash_version)) "oracle:pool-annotated"
+      (* oracle: a claim that already carries Drifted stays drifted across a hash-version migration: its hash
+         annotation is not re-stamped with the pool's new hash *)
+      ++ tag (drifted_kept h cb ca) "oracle:drifted-claim-restamped"
   | CaseSys validated noresolve p pod claim_l provider_l final_l fresh_scenario steps =>
       tag (claim_labels_allowed noresolve p pod claim_l) "corr:claim-labels"
       ++ tag (labels_eqb (populate claim_l provider_l) final_l) "corr:populate"
